@@ -711,7 +711,9 @@ def step_set(p, file, step, model, labels):
         model[key] = exp
     if post is None:
         return [Failure(f"set|written-file-no-longer-loads|{klass}", {**ctx, "show_exit": post_r.exit, "show_stderr": post_r.stderr[-300:]})], outcome
-    lost = [k for k in pre if k != key and (k not in post or post[k] != pre[k])]
+    # configuration keys are loaded with hyphens normalised to underscores: x-owner and x_owner are ONE setting
+    same = lambda a, b: a.replace("-", "_") == b.replace("-", "_")  # noqa: E731
+    lost = [k for k in pre if not same(k, key) and (k not in post or post[k] != pre[k])]
     if lost:
         return [Failure(f"set|other-setting-changed|{klass}", {**ctx, "keys": lost[:5], "before": {k: pre[k] for k in lost[:3]}, "after": {k: post.get(k, "<gone>") for k in lost[:3]}})], outcome
     fails = _library_roundtrip(p, file, ctx)
